@@ -86,6 +86,8 @@ pub struct RaceCase {
     /// 3: hold a reader of a second Index handle inside its reload while everything is merged and collected
     /// 4: hold the segment updater inside the metadata write that publishes a merge, drop the writer, open a new writer,
     ///    add and commit with it, release
+    /// 5: hold one indexing worker at a file creation, make the other worker fail (I/O fault), wait_merging_threads
+    ///    (returns the worker's error), open the index again, new writer, add and commit, release
     pub kind: u8,
     pub nth: u8,
     pub adds_during: Vec<AddSpec>,
@@ -114,15 +116,19 @@ impl Sub for Races {
             c
         });
         let prefix_op = prop_oneof![8 => add_strategy().prop_map(Op::Add), 1 => any::<u16>().prop_map(Op::DelUid), 3 => Just(Op::Commit)];
-        (cfg, prop::collection::vec(prefix_op, 2..20), 0u8..5, 0u8..6, prop::collection::vec(add_strategy(), 1..5), prop::collection::vec(op_strategy(false), 0..8))
+        (cfg, prop::collection::vec(prefix_op, 2..20), 0u8..6, 0u8..6, prop::collection::vec(add_strategy(), 1..5), prop::collection::vec(op_strategy(false), 0..8))
             .prop_map(|(cfg, prefix, kind, nth, adds_during, suffix)| RaceCase { cfg, prefix, kind, nth, adds_during, suffix })
             .boxed()
     }
     fn mandatory_labels(&self, _t: Tier) -> Vec<&'static str> {
-        vec!["race:gc_queued_behind_commit", "race:gc_while_worker_writes_segment", "race:gc_while_merge_writes_segment", "race:gc_while_reader_loads", "race:old_updater_task_after_writer_drop", "old_updater_held_at_writer_drop", "reader_held_at_meta_lock", "reader_held_at_segment_file_open", "gate_reached", "unpublished_files_existed_during_gc"]
+        vec!["race:gc_queued_behind_commit", "race:gc_while_worker_writes_segment", "race:gc_while_merge_writes_segment", "race:gc_while_reader_loads", "race:old_updater_task_after_writer_drop", "old_updater_held_at_writer_drop", "race:worker_held_while_other_worker_fails", "wait_merging_threads_returned_worker_error", "reader_held_at_meta_lock", "reader_held_at_segment_file_open", "gate_reached", "unpublished_files_existed_during_gc"]
     }
     fn run(&self, c: &RaceCase, cx: &Ctx) -> CaseResult {
-        let mut env = Env::new(c.cfg.clone())?;
+        let mut cfg = c.cfg.clone();
+        if c.kind == 5 {
+            cfg.threads = 2;
+        }
+        let mut env = Env::new(cfg)?;
         env.check_quiescence = false;
         env.skip_dirty_delete_all = true;
         let DirHandle::Sim(sd) = &env.dir else { return Err(Failure::new("INFRA:not_sim", "")) };
@@ -276,6 +282,44 @@ impl Sub for Races {
                         std::thread::yield_now();
                     }
                     env.verify("after_old_updater_task")?;
+                }
+            }
+            5 => {
+                // one worker fails, the other one is in the middle of writing its segment: once the writer is gone
+                // (wait_merging_threads returned the error) nothing of it may keep writing into the directory; whatever
+                // the survivor created must be collectable by the next writer, also through another Index handle
+                cx.label("race:worker_held_while_other_worker_fails");
+                let gate = sd.add_gate(GateSpec { thread: "thrd-tantivy-index".into(), kind: Some(K::Create), path_suffix: String::new(), nth: (c.nth % 4) as usize, max_hold: Duration::from_millis(250) });
+                env.apply(&Op::Add(c.adds_during[0].clone()), cx)?;
+                reached = sd.wait_reached(gate, Duration::from_millis(300));
+                unpublished = reached;
+                sd.set_faults(vec![crate::simdir::FaultRule { kinds: vec![K::Create], thread: "thrd-tantivy-index".into(), path_suffix: String::new(), nth: 0, permanent: false, locks: false }]);
+                for a in c.adds_during.iter().chain(c.adds_during.iter()) {
+                    // taken by the other worker (the first one is held); not part of the model: they are never committed
+                    let mut d = tantivy::TantivyDocument::new();
+                    d.add_u64(env.f.uid, (7_000_000i64 + a.num as i64) as u64);
+                    d.add_text(env.f.grp, format!("g{}", a.grp));
+                    d.add_i64(env.f.num, a.num as i64);
+                    if env.writer.as_ref().unwrap().add_document(d).is_err() {
+                        break;
+                    }
+                }
+                let w = env.writer.take().unwrap();
+                let res = w.wait_merging_threads();
+                cx.label_if(res.is_err(), "wait_merging_threads_returned_worker_error");
+                cx.label_if(sd.gate_pending(gate), "worker_still_held_after_wait_returned");
+                sd.clear_faults();
+                // the next writer comes from another Index handle (own view of the managed files)
+                env.index = tantivy::Index::open(sd.clone()).or_fail("index_open_failed")?;
+                env.after_writer_gone()?;
+                for a in &c.adds_during {
+                    env.apply(&Op::Add(a.clone()), cx)?;
+                }
+                env.apply(&Op::Commit, cx)?;
+                sd.release(gate);
+                let t0 = std::time::Instant::now();
+                while t0.elapsed() < Duration::from_millis(40) {
+                    std::thread::yield_now();
                 }
             }
             _ => {
